@@ -1,5 +1,5 @@
 ---------------------------- MODULE MC_ExtElem ----------------------------
 EXTENDS ExtElem
-SmallWc == wc <= 4 /\ Cardinality(present) <= 3
-SmallWcQ == wc <= 3 /\ Cardinality(present) <= 2
+Thorough == wc <= 3 /\ Cardinality(present) <= 2 /\ Cardinality(tainted) <= 2
+Quick == wc <= 2 /\ Cardinality(present) <= 2 /\ Cardinality(tainted) <= 1
 =============================================================================
